@@ -40,6 +40,8 @@ ASSUMPTIONS = [
     'environment as the server, because assist() lists sys.modules and sys.path of the running process',
     'a request that raises in-process leaves the in-process state unchanged (hypothesis raise_pure of C15_raising_request_isolated): '
     'checked without the reference by the isolation evaluator (same sequence with and without the failing request, both on real servers)',
+    'the library-level reference re-states the request methods of server.py:34-62 (Project(sources, dyn_modules); check_changes(); '
+    'nstr(source); tuple(position); lint results trimmed to 4 fields) in the harness worker: an intended change of these wrappers must be mirrored there',
     'location() alternatives are compared as multisets (order of alternatives is C17 / defect F4, not C15)',
 ]
 
@@ -965,7 +967,7 @@ def gen_sequences(ctx):
                 st = steps[:i] + [{'call': f}] + steps[i:]
                 seqs.append({'files': FILES, 'steps': st, 'tag': 'inject-configure@%d' % i, 'base': bid, 'inject_call': i})
     # (b) random mixes: valid, failing, edits of project files, fatal requests at the end
-    for j in range(ctx.pick(50, 900)):
+    for j in range(ctx.pick(40, 900)):
         n = rng.randint(1, maxlen)
         steps = []
         issued = []
@@ -1139,7 +1141,7 @@ def repeat_sequences(ctx):
                [{'edit': 'mod1.py', 'content': 'def only_this():\n    pass\n'},
                 {'edit': 'alt/mod1.py', 'content': 'fresh_name = 3\nbar = 4\n'},
                 {'edit': 'pkg/sub.py', 'content': 'helper = 1\n'}])
-    for j in range(ctx.pick(16, 120)):
+    for j in range(ctx.pick(12, 120)):
         q = rng.choice(REPEAT_QUERIES)
         same_kind_between = rng.random() < 0.25
         steps = [{'call': ['configure', [{'sources': rng.choice(ROOTS)}], {}]}]
@@ -1167,7 +1169,7 @@ def stdio_sequences(ctx):
     seqs = []
     cfg = {'call': ['configure', CONFIGURE_OK[0], {}]}
     # a long run of failing requests (each logs a traceback with the default logging set-up)
-    for nfail in ctx.pick([450], [450, 3000]):
+    for nfail in ctx.pick([350], [450, 3000]):
         steps = [cfg]
         for i in range(nfail):
             steps.append({'call': g_failing(rng, rng.choice(['unknown', 'arity', 'raises', 'configure']))[0]})
@@ -1538,6 +1540,7 @@ def _run(ctx):
         else:
             sync_terms.append(term)
             sync_idx.append(i)
+    cov['library_level_comparisons'] = sum(r.get('lib_compared', 0) for r in results)
     cov['isolation_disagreements'] = check_isolation(ctx, seqs, results)
     cov['sweep_reply_lengths'] = {k: summarise(v) for k, v in sorted(sweep_lengths.items())}
     cov['max_request_bytes'] = maxsize
